@@ -5,10 +5,15 @@ use crate::RecvErrorTimeout;
 use std::collections::VecDeque;
 use std::future::Future;
 use std::pin::Pin;
+#[cfg(not(excsn_fibre_verif))]
 use parking_lot::Mutex;
 use std::sync::Arc;
 use std::task::{Context, Poll, Waker};
+#[cfg(not(excsn_fibre_verif))]
 use std::thread::{self, Thread};
+// Verification builds route the topic channel through the traced primitives (hook H2).
+#[cfg(excsn_fibre_verif)]
+use crate::internal::sync::{thread::{self, Thread}, Mutex};
 use std::time::{Duration, Instant};
 
 // --- Waiter & Internal State ---
